@@ -220,7 +220,7 @@ func (a *Analysis) ruleGates() {
 					subj[c.Value()] = true
 				}
 			}
-			res := AnalyseGate(a.NME, subj, a.NME.Blocks[0], ZRange(0, maxLen), bits)
+			res := AnalyseGate(a.NME, subj, a.NME.Blocks[0], ZRange(0, maxLen), bits, a.gateTables)
 			a.Gate1 = a.checkGate(gateSpec{rule: "G1", fn: a.NME, what: "len(" + param.Name() + ")", spec: specEntLens(), sentinel: "ErrEntropyLen", strResult: true}, res)
 		}
 	}
@@ -235,7 +235,7 @@ func (a *Analysis) ruleGates() {
 		if param == nil {
 			a.R.Unk("G2", "NewMnemonic/subject", a.P.Pos(a.NM.Pos()), "", "no int parameter")
 		} else {
-			res := AnalyseGate(a.NM, map[ssa.Value]bool{param: true}, a.NM.Blocks[0], ZRange(minInt, maxInt), bits)
+			res := AnalyseGate(a.NM, map[ssa.Value]bool{param: true}, a.NM.Blocks[0], ZRange(minInt, maxInt), bits, a.gateTables)
 			a.Gate2 = a.checkGate(gateSpec{rule: "G2", fn: a.NM, what: param.Name(), spec: specWordCounts(), sentinel: "ErrWordLen", allowLateFail: true, strResult: true}, res)
 		}
 	}
@@ -265,7 +265,7 @@ func (a *Analysis) ruleGates() {
 			if calleeName(tok) == "strings.Split" {
 				lo = 1
 			}
-			res := AnalyseGate(a.CM, subj, tok.Block(), ZRange(lo, maxLen), bits)
+			res := AnalyseGate(a.CM, subj, tok.Block(), ZRange(lo, maxLen), bits, a.gateTables)
 			a.Gate3 = a.checkGate(gateSpec{rule: "G3", fn: a.CM, what: "len(tokens)", spec: specWordCounts(), sentinel: "ErrWordLen", allowLateFail: true}, res)
 		}
 	}
@@ -376,6 +376,22 @@ func (a *Analysis) checkGate(gs gateSpec, res *GateResult) *GateInfo {
 			r.Add(gs.rule, fk+"/opaque-condition", a.P.InstrPos(in), "", Discharged, "a branch on %s that is not a comparison with a constant refines nothing (over-approximation)", gs.what)
 		}
 	}
+	for tg := range res.Relied {
+		okT := true
+		for _, w := range a.Ef.Writes[tg] {
+			if !w.Test && !(w.Synth) {
+				okT = false
+				r.Bad(gs.rule, fk+"/table/"+tg.Name(), a.P.InstrPos(w.Instr), "", "the size gate reads table %s, which %s modifies (%s)", tg.Name(), fnKey(w.Fn), w.How)
+			}
+		}
+		if len(a.Ef.Escapes[tg]) > 0 {
+			okT = false
+			r.Unk(gs.rule, fk+"/table/"+tg.Name(), a.P.Pos(tg.Pos()), "", "the size gate reads table %s, which escapes the analysis", tg.Name())
+		}
+		if okT {
+			r.OK(gs.rule, fk+"/table/"+tg.Name(), a.P.Pos(tg.Pos()), "", "gate table %s is written only by its declaration", tg.Name())
+		}
+	}
 	gi.OK = len(gi.Accept) == len(gs.spec) && gi.Extra.Empty()
 	r.Check(gi.OK, gs.rule, fk+"/accept-set", pos, "",
 		fmt.Sprintf("accept set of %s is exactly %v (%d refining conditions)", gs.what, specSet, res.Atoms),
@@ -428,3 +444,64 @@ func calleeShort(c *ssa.Call) string {
 }
 
 var _ = token.ADD
+
+
+// gateTables resolves a package-level constant integer table (array/slice literal or map literal).
+func (a *Analysis) gateTables(gl *ssa.Global) *gtable {
+	if gl == nil || gl.Pkg == nil || !a.P.InModule(gl.Pkg) {
+		return nil
+	}
+	toInts := func(elems []AV) ([]int64, bool) {
+		out := make([]int64, len(elems))
+		for i, el := range elems {
+			iv, ok := el.(IntV)
+			if !ok {
+				if el == nil {
+					continue // unset element of a keyed array literal: zero
+				}
+				return nil, false
+			}
+			c, ok := iv.Const()
+			if !ok {
+				return nil, false
+			}
+			out[i] = c
+		}
+		return out, true
+	}
+	if v := a.G.Vecs[gl]; v != nil {
+		if d, ok := toInts(v.Elems); ok {
+			return &gtable{name: gl.Name(), dense: d}
+		}
+	}
+	if v, ok := a.G.Init[gl].(VecV); ok {
+		if d, ok := toInts(v.Elems); ok {
+			return &gtable{name: gl.Name(), dense: d}
+		}
+	}
+	if cm, ok := a.G.Init[gl].(CMapV); ok {
+		if mc, ok := a.G.Objs[cm.O].(MapC); ok && mc.Top == "" {
+			t := &gtable{name: gl.Name(), keyed: map[int64]int64{}}
+			for i, k := range mc.Keys {
+				if !strings.HasPrefix(k, "i:") {
+					return nil
+				}
+				var kv int64
+				if _, err := fmt.Sscanf(k[2:], "%d", &kv); err != nil {
+					return nil
+				}
+				iv, ok := mc.Vals[i].(IntV)
+				if !ok {
+					return nil
+				}
+				c, ok := iv.Const()
+				if !ok {
+					return nil
+				}
+				t.keyed[kv] = c
+			}
+			return t
+		}
+	}
+	return nil
+}
